@@ -42,6 +42,8 @@ VARIABLES
     hsdone,     \* [Station -> BOOLEAN]  station finished its handshake lines
     turn,       \* station whose turn it is to send commands ("none" before the handshake is complete)
     quit,       \* a station sent FQ
+    cmsq,       \* "none", or the station that announced / performed a CMS-style quit (FQ right after its own last block,
+                \* without waiting for the other station's turn, followed by a hang-up)
     lastEmpty,  \* [Station -> BOOLEAN]  the station's last turn was FF / an empty block
     ret,        \* [Station -> {"run","nil","err","lost","panic"}]
     stats,      \* [Station -> [sent, recv]]  TrafficStats returned by Exchange
@@ -50,7 +52,7 @@ VARIABLES
 
 pvars == <<owner, pol, prec, sentEver, storedEver>>
 svars == <<master, faulted, offered, hans, fans, block, open, await, owe, reqoff, framed, stored,
-           repSent, repRej, repDef, sid, hsdone, turn, quit, lastEmpty, ret, stats, closed, ended>>
+           repSent, repRej, repDef, sid, hsdone, turn, quit, cmsq, lastEmpty, ret, stats, closed, ended>>
 vars  == <<pvars, svars>>
 
 Empty   == [x \in {} |-> 0]
@@ -69,7 +71,7 @@ SessionInit(m) ==
     /\ framed = [s \in Station |-> {}] /\ stored = [s \in Station |-> <<>>]
     /\ repSent = [s \in Station |-> {}] /\ repRej = [s \in Station |-> {}] /\ repDef = [s \in Station |-> {}]
     /\ sid = [s \in Station |-> FALSE] /\ hsdone = [s \in Station |-> FALSE]
-    /\ turn = "none" /\ quit = FALSE /\ lastEmpty = [s \in Station |-> FALSE]
+    /\ turn = "none" /\ quit = FALSE /\ cmsq = "none" /\ lastEmpty = [s \in Station |-> FALSE]
     /\ ret = [s \in Station |-> "run"] /\ stats = [s \in Station |-> [sent |-> {}, recv |-> {}]]
     /\ closed = [s \in Station |-> FALSE] /\ ended = FALSE
 
@@ -82,7 +84,7 @@ SessionReset(m, f) ==
     /\ framed' = [s \in Station |-> {}] /\ stored' = [s \in Station |-> <<>>]
     /\ repSent' = [s \in Station |-> {}] /\ repRej' = [s \in Station |-> {}] /\ repDef' = [s \in Station |-> {}]
     /\ sid' = [s \in Station |-> FALSE] /\ hsdone' = [s \in Station |-> FALSE]
-    /\ turn' = "none" /\ quit' = FALSE /\ lastEmpty' = [s \in Station |-> FALSE]
+    /\ turn' = "none" /\ quit' = FALSE /\ cmsq' = "none" /\ lastEmpty' = [s \in Station |-> FALSE]
     /\ ret' = [s \in Station |-> "run"] /\ stats' = [s \in Station |-> [sent |-> {}, recv |-> {}]]
     /\ closed' = [s \in Station |-> FALSE] /\ ended' = FALSE
 
@@ -106,7 +108,7 @@ NewSession(m, f) ==                      \* a new pair of Exchange calls on the 
 Fault ==                                  \* link cut observed
     /\ faulted' = TRUE
     /\ UNCHANGED <<pvars, master, offered, hans, fans, block, open, await, owe, reqoff, framed, stored,
-                   repSent, repRej, repDef, sid, hsdone, turn, quit, lastEmpty, ret, stats, closed, ended>>
+                   repSent, repRej, repDef, sid, hsdone, turn, quit, cmsq, lastEmpty, ret, stats, closed, ended>>
 
 -----------------------------------------------------------------------------
 (* Handler events: the substance of C01 / C02 / C04 *)
@@ -117,14 +119,14 @@ Offer(s, ms) ==                           \* GetOutbound returned ms (any number
     /\ ret[s] = "run"
     /\ offered' = [offered EXCEPT ![s] = @ \cup ms]
     /\ UNCHANGED <<pvars, master, faulted, hans, fans, block, open, await, owe, reqoff, framed, stored,
-                   repSent, repRej, repDef, sid, hsdone, turn, quit, lastEmpty, ret, stats, closed, ended>>
+                   repSent, repRej, repDef, sid, hsdone, turn, quit, cmsq, lastEmpty, ret, stats, closed, ended>>
 
 HAnswer(r, m, a) ==                       \* r's handler answered a for proposal m
     /\ ret[r] = "run"
     /\ m \in DOMAIN owner /\ owner[m] = Peer(r)
     /\ hans' = [hans EXCEPT ![r] = Put(@, m, a)]
     /\ UNCHANGED <<pvars, master, faulted, offered, fans, block, open, await, owe, reqoff, framed, stored,
-                   repSent, repRej, repDef, sid, hsdone, turn, quit, lastEmpty, ret, stats, closed, ended>>
+                   repSent, repRej, repDef, sid, hsdone, turn, quit, cmsq, lastEmpty, ret, stats, closed, ended>>
 
 (* ProcessInbound(m) was called on r's handler.                                                   *)
 (*   - only for a proposal r accepted in this session, and at most once per session        (C01)  *)
@@ -141,7 +143,7 @@ Store(r, m, intact, err) ==
               /\ storedEver' = [storedEver EXCEPT ![r] = Append(@, m)]
               /\ UNCHANGED faulted
     /\ UNCHANGED <<owner, pol, prec, sentEver, master, offered, hans, fans, block, open, await, owe, reqoff, framed,
-                   repSent, repRej, repDef, sid, hsdone, turn, quit, lastEmpty, ret, stats, closed, ended>>
+                   repSent, repRej, repDef, sid, hsdone, turn, quit, cmsq, lastEmpty, ret, stats, closed, ended>>
 
 (* SetSent(m, rejected) was called on s's handler.                                               *)
 (*   rejected:  the peer answered "already received" for m in this session and m was not transferred *)
@@ -158,7 +160,7 @@ SetSent(s, m, rej) ==
               /\ repSent' = [repSent EXCEPT ![s] = @ \cup {m}] /\ UNCHANGED repRej
     /\ sentEver' = [sentEver EXCEPT ![s] = @ \cup {m}]
     /\ UNCHANGED <<owner, pol, prec, storedEver, master, faulted, offered, hans, fans, block, open, await, owe, reqoff,
-                   framed, stored, repDef, sid, hsdone, turn, quit, lastEmpty, ret, stats, closed, ended>>
+                   framed, stored, repDef, sid, hsdone, turn, quit, cmsq, lastEmpty, ret, stats, closed, ended>>
 
 SetDeferred(s, m) ==
     /\ ret[s] = "run"
@@ -167,7 +169,7 @@ SetDeferred(s, m) ==
     /\ m \notin repSent[s] \cup repRej[s]
     /\ repDef' = [repDef EXCEPT ![s] = @ \cup {m}]
     /\ UNCHANGED <<pvars, master, faulted, offered, hans, fans, block, open, await, owe, reqoff, framed, stored,
-                   repSent, repRej, sid, hsdone, turn, quit, lastEmpty, ret, stats, closed, ended>>
+                   repSent, repRej, sid, hsdone, turn, quit, cmsq, lastEmpty, ret, stats, closed, ended>>
 
 -----------------------------------------------------------------------------
 (* Wire units: the protocol as the independent judge reads it (C05, and the  *)
@@ -189,7 +191,7 @@ HsLine(s, kind, prompt) ==
     /\ prompt => s = master /\ sid[s]         \* the prompt closes the master's handshake, after its SID
     /\ sid' = [sid EXCEPT ![s] = @ \/ kind = "Sid"]
     /\ hsdone' = [hsdone EXCEPT ![s] = prompt]
-    /\ UNCHANGED <<fans, block, open, await, owe, reqoff, framed, turn, quit, lastEmpty>>
+    /\ UNCHANGED <<fans, block, open, await, owe, reqoff, framed, turn, quit, cmsq, lastEmpty>>
     /\ UnchangedButWire
 
 SidOK(b2, f, dollarLast) == b2 /\ f /\ dollarLast
@@ -214,7 +216,7 @@ Prop(s, m, size, csize, code) ==
                                                 ELSE <<[mid |-> m, csize |-> csize, size |-> size, code |-> code]>>]
     /\ open' = [open EXCEPT ![s] = TRUE]
     /\ turn' = s /\ hsdone' = [hsdone EXCEPT ![s] = TRUE]
-    /\ UNCHANGED <<sid, fans, await, owe, reqoff, framed, quit, lastEmpty>>
+    /\ UNCHANGED <<sid, fans, await, owe, reqoff, framed, quit, cmsq, lastEmpty>>
     /\ UnchangedButWire
 
 EndBlock(s, count, sumOK) ==
@@ -223,7 +225,7 @@ EndBlock(s, count, sumOK) ==
     /\ open' = [open EXCEPT ![s] = FALSE]
     /\ await' = Peer(s)
     /\ lastEmpty' = [lastEmpty EXCEPT ![s] = FALSE]
-    /\ UNCHANGED <<sid, hsdone, fans, block, owe, reqoff, framed, turn, quit>>
+    /\ UNCHANGED <<sid, hsdone, fans, block, owe, reqoff, framed, turn, quit, cmsq>>
     /\ UnchangedButWire
 
 (* one answer per proposal; answers on the wire are the handler's, except that a duplicate MID within the  *)
@@ -250,7 +252,7 @@ Fs(r, answers, offsets) ==
                           ELSE Get(reqoff, m, 0)]
        /\ turn' = IF \E i \in 1..Len(b) : answers[i] = "+" THEN Peer(r) ELSE r
     /\ await' = "none"
-    /\ UNCHANGED <<sid, hsdone, block, open, framed, quit, lastEmpty>>
+    /\ UNCHANGED <<sid, hsdone, block, open, framed, quit, cmsq, lastEmpty>>
     /\ UnchangedButWire
 
 (* a complete message transfer SOH..EOT; the arithmetic was checked by the lexer *)
@@ -270,27 +272,50 @@ Frame(s, f) ==
           /\ framed' = [framed EXCEPT ![s] = @ \cup {m}]
     /\ owe' = [owe EXCEPT ![s] = Tail(@)]
     /\ turn' = IF Len(owe[s]) = 1 THEN Peer(s) ELSE turn
-    /\ UNCHANGED <<sid, hsdone, fans, block, open, await, reqoff, quit, lastEmpty>>
+    /\ UNCHANGED <<sid, hsdone, fans, block, open, await, reqoff, quit, cmsq, lastEmpty>>
     /\ UnchangedButWire
 
 FF(s) ==
     /\ CanCommand(s) /\ ~open[s]
     /\ turn' = Peer(s) /\ hsdone' = [hsdone EXCEPT ![s] = TRUE]
     /\ lastEmpty' = [lastEmpty EXCEPT ![s] = TRUE]
-    /\ UNCHANGED <<sid, fans, block, open, await, owe, reqoff, framed, quit>>
+    /\ UNCHANGED <<sid, fans, block, open, await, owe, reqoff, framed, quit, cmsq>>
+    /\ UnchangedButWire
+
+(* The station's own block is finished (answered, accepted messages transferred) and the other station has not begun   *)
+(* its turn.  What Winlink's CMS does here when it has nothing more to send (fbb/wl2k_test.go, TestSessionCMS...):      *)
+(* instead of waiting for the other station's turn it says FQ and hangs up.  The scripted peer announces it (the        *)
+(* library never does); the other station's FF may cross the FQ on the wire.                                            *)
+OwnBlockDone(s) ==
+    /\ ~quit /\ await = "none" /\ owe["A"] = <<>> /\ owe["B"] = <<>>
+    /\ ~open[s] /\ block[s] # <<>>
+    /\ \/ turn = Peer(s) /\ ~open[Peer(s)] /\ ~lastEmpty[s]
+       \/ turn = s                            \* the other station's FF is already on the wire: an ordinary FQ
+CmsIntent(s) ==
+    /\ OwnBlockDone(s) /\ cmsq = "none"
+    /\ cmsq' = s
+    /\ UNCHANGED <<sid, hsdone, fans, block, open, await, owe, reqoff, framed, turn, quit, lastEmpty>>
     /\ UnchangedButWire
 
 FQ(s) ==
-    /\ CanCommand(s) /\ ~open[s]
+    /\ \/ CanCommand(s)
+       \/ cmsq = s /\ OwnBlockDone(s)
+    /\ ~open[s]
     /\ quit' = TRUE /\ hsdone' = [hsdone EXCEPT ![s] = TRUE]
-    /\ UNCHANGED <<sid, fans, block, open, await, owe, reqoff, framed, turn, lastEmpty>>
+    /\ UNCHANGED <<sid, fans, block, open, await, owe, reqoff, framed, turn, lastEmpty, cmsq>>
+    /\ UnchangedButWire
+
+(* the FF of a station that has nothing to send, written before it has read the CMS-style FQ *)
+StaleFF(s) ==
+    /\ quit /\ cmsq = Peer(s) /\ turn = s /\ ~open[s]
+    /\ UNCHANGED <<sid, hsdone, fans, block, open, await, owe, reqoff, framed, turn, quit, cmsq, lastEmpty>>
     /\ UnchangedButWire
 
 (* comment and ;PM lines may appear between commands; an error line "*** ..." only in a faulted session *)
 Chatter(s, kind) ==
     /\ \/ kind \in {"Comment", "Pm"} /\ (hsdone[s] \/ turn # "none")
        \/ kind = "Err" /\ faulted
-    /\ UNCHANGED <<sid, hsdone, fans, block, open, await, owe, reqoff, framed, turn, quit, lastEmpty>>
+    /\ UNCHANGED <<sid, hsdone, fans, block, open, await, owe, reqoff, framed, turn, quit, cmsq, lastEmpty>>
     /\ UnchangedButWire
 
 -----------------------------------------------------------------------------
@@ -302,12 +327,12 @@ Return(s, r, st) ==
     /\ stats' = [stats EXCEPT ![s] = st]
     /\ r = "panic" => FALSE                   \* a panic is never a behaviour
     /\ UNCHANGED <<pvars, master, faulted, offered, hans, fans, block, open, await, owe, reqoff, framed, stored,
-                   repSent, repRej, repDef, sid, hsdone, turn, quit, lastEmpty, closed, ended>>
+                   repSent, repRej, repDef, sid, hsdone, turn, quit, cmsq, lastEmpty, closed, ended>>
 
 Close(s) ==
     /\ closed' = [closed EXCEPT ![s] = TRUE]
     /\ UNCHANGED <<pvars, master, faulted, offered, hans, fans, block, open, await, owe, reqoff, framed, stored,
-                   repSent, repRej, repDef, sid, hsdone, turn, quit, lastEmpty, ret, stats, ended>>
+                   repSent, repRej, repDef, sid, hsdone, turn, quit, cmsq, lastEmpty, ret, stats, ended>>
 
 (* what a *completed* exchange must have achieved (C01) *)
 CompleteExchange ==
@@ -316,7 +341,9 @@ CompleteExchange ==
     /\ \A s \in Station : \A m \in Pending(s) \cup repSent[s] \cup repRej[s] :
          owner[m] = s =>
            LET a == Get(hans[Peer(s)], m, "?") IN
-           CASE a = "+" -> m \in repSent[s] /\ Count(stored[Peer(s)], m) = 1
+           CASE a = "+" -> /\ Count(stored[Peer(s)], m) = 1
+                           \* a station that quit CMS-style did not wait for the confirmation of its last block
+                           /\ m \in repSent[s] \/ (cmsq = s /\ \E i \in 1..Len(block[s]) : block[s][i].mid = m)
              [] a = "-" -> m \in repRej[s] /\ m \notin framed[s]
              [] a = "=" -> m \in repDef[s] /\ m \notin repSent[s] \cup repRej[s] /\ m \notin framed[s]
              [] OTHER   -> FALSE             \* every queued message was proposed and answered
@@ -331,7 +358,7 @@ End(timedout, pendA, pendB) ==
     /\ \A s \in Station : ret[s] # "run" /\ closed[s]
     /\ ~faulted => CompleteExchange /\ pendA = 0 /\ pendB = 0
     /\ UNCHANGED <<pvars, master, faulted, offered, hans, fans, block, open, await, owe, reqoff, framed, stored,
-                   repSent, repRej, repDef, sid, hsdone, turn, quit, lastEmpty, ret, stats, closed>>
+                   repSent, repRej, repDef, sid, hsdone, turn, quit, cmsq, lastEmpty, ret, stats, closed>>
 
 (* after the last (clean) session of a sequence: everything delivered exactly once and reported (C02) *)
 EndAll ==
